@@ -101,6 +101,10 @@ var awkwardLinks = []string{
 	"https://media.example/talk.mp4#t=90,120", "https://media.example/doc#%url", "https://media.example/p?a=1#frag ment",
 	// short relative references: a link may be spelled exactly like an option, a wildcard, a type
 	"--", "-", "*", "image", "png", "--verbose",
+	// (a link of 64 KiB or more is not in this list: servitor needs minutes of CPU to lay out a single
+	// link of that size — ansi.Indent/style.LinkBlock are quadratic — which wedges the session; that is
+	// a matter of C06, which is not claimed here, see DESIGN 12.5 seventh wave)
+	"https://media.example/long?" + strings.Repeat("a", 3000),
 }
 var awkwardMimes = []string{"image/png", "video/mp4", "audio/ogg", "text/html", "application/x-%url", "image/svg+xml", "video/x-$(id)", "", "", "image/jpeg; charset=x",
 	"%url/png", "image/%url", "%mimetype/%subtype", "%supertype/%url", "video/%mimetype",
@@ -528,6 +532,12 @@ func (tn *Town) install() {
 func (tn *Town) serveList(host, url string, items []CItem) {
 	t := tn.f.t
 	l := &CLayout{Host: host, Ordered: t.Chance(1, 2), RootURL: url, CycleTo: -1, Total: len(items)}
+	if tn.Opts.Hostile && t.Chance(1, 3) {
+		// numbers are remote content too: totals whose value is the code point of a control character,
+		// times a thousand or a million, or plainly absurd
+		l.Total = []int{27, 7, 155, 157, 27000, 155000, 27000000, 7000000, 155000000, 157000000, 133000000, 1 << 40, -27}[t.Draw(13)]
+		tn.f.r.S.Probe("town_hostile_total")
+	}
 	if !tn.Opts.Paged || len(items) == 0 || t.Chance(1, 3) {
 		l.RootItems = items
 	} else {
